@@ -131,6 +131,12 @@ func (r *UnifiedMemoryModelRegistry) unifyModelsAsync(ctx context.Context, endpo
 	r.unificationMutex.Lock()
 	defer r.unificationMutex.Unlock()
 
+	// Unification goroutines of one endpoint are not ordered: work from the endpoint's current listing rather
+	// than the snapshot this goroutine was started with, so a late run for an older listing cannot undo a newer one.
+	if current, err := r.MemoryModelRegistry.GetModelsForEndpoint(context.WithoutCancel(ctx), endpointURL); err == nil {
+		models = current
+	}
+
 	// Get or create endpoint object
 	endpoint, exists := r.endpoints.Load(endpointURL)
 	if !exists {
@@ -153,6 +159,12 @@ func (r *UnifiedMemoryModelRegistry) unifyModelsAsync(ctx context.Context, endpo
 	for _, unified := range unifiedModels {
 		modelGroups[unified.ID] = append(modelGroups[unified.ID], unified)
 	}
+
+	// Models of the endpoint's previous listing that are gone from this one must not stay attributed to it
+	r.detachEndpointLocked(endpointURL, func(id string) bool {
+		_, stillListed := modelGroups[id]
+		return !stillListed
+	})
 
 	// Merge models across endpoints
 	for id, group := range modelGroups {
@@ -304,19 +316,13 @@ func (r *UnifiedMemoryModelRegistry) GetUnifiedStats(ctx context.Context) (Unifi
 	}, nil
 }
 
-// RemoveEndpoint overrides to clean up unified models
-func (r *UnifiedMemoryModelRegistry) RemoveEndpoint(ctx context.Context, endpointURL string) error {
-	// First remove from base registry
-	if err := r.MemoryModelRegistry.RemoveEndpoint(ctx, endpointURL); err != nil {
-		return err
-	}
-
-	// Clean up unified models
-	r.unificationMutex.Lock()
-	defer r.unificationMutex.Unlock()
-
-	// Remove endpoint from all unified models
+// detachEndpointLocked removes the endpoint from the unified models selected by detach, dropping models that are
+// left without any endpoint and keeping the cached endpoint sets in step. Callers hold unificationMutex.
+func (r *UnifiedMemoryModelRegistry) detachEndpointLocked(endpointURL string, detach func(id string) bool) {
 	r.globalUnified.Range(func(id string, model *domain.UnifiedModel) bool {
+		if !detach(id) {
+			return true
+		}
 		// we're capturing model metadata BEFORE mutation to avoid accessing empty slices
 		// when the last endpoint is removed (model.RemoveEndpoint empties SourceEndpoints)
 		sourceEndpoints := make([]domain.SourceEndpoint, len(model.SourceEndpoints))
@@ -359,6 +365,21 @@ func (r *UnifiedMemoryModelRegistry) RemoveEndpoint(ctx context.Context, endpoin
 		}
 		return true
 	})
+}
+
+// RemoveEndpoint overrides to clean up unified models
+func (r *UnifiedMemoryModelRegistry) RemoveEndpoint(ctx context.Context, endpointURL string) error {
+	// First remove from base registry
+	if err := r.MemoryModelRegistry.RemoveEndpoint(ctx, endpointURL); err != nil {
+		return err
+	}
+
+	// Clean up unified models
+	r.unificationMutex.Lock()
+	defer r.unificationMutex.Unlock()
+
+	// Remove endpoint from all unified models
+	r.detachEndpointLocked(endpointURL, func(string) bool { return true })
 
 	return nil
 }
